@@ -89,6 +89,7 @@ def jerr : Err → Json
   | .arrayMember n l => Json.arr #["array", n, jn l]
   | .noncomposite n l => Json.arr #["noncomp", n, jn l]
   | .badAlias n l => Json.arr #["badalias", n, jn l]
+  | .moduleAsField n l => Json.arr #["modfield", n, jn l]
 
 def jfres : FRes → Json
   | .ok cs => Json.mkObj [("ok", Json.arr (cs.map jpath).toArray)]
